@@ -68,6 +68,14 @@ fn bodies(ctx: &mut Ctx) -> Vec<Vec<u8>> {
     let v = gen::gen_mval(&mut ctx.rng, ty, &o);
     out.push(rcbor::det(&gen::mutate_item(&mut ctx.rng, &model::encode(&v))));
     out.push(rcbor::det(&gen::random_item(&mut ctx.rng, 2)));
+    // bodies beyond 64 KiB / 1 MiB (one in eight body sets): sizes at which an implementation may
+    // switch to another code path
+    if ctx.rng.chance(1, 8) {
+        let n = *ctx.rng.pick(&[65536usize, 70000, 1 << 20]);
+        let big = ctx.rng.bytes(n);
+        out.push(rcbor::det(&Item::Array(vec![Item::Bytes(vec![]), Item::Map(vec![]), Item::Bytes(big.clone()), Item::Bytes(vec![1])])));
+        out.push(rcbor::det(&Item::Array(vec![Item::Bytes(vec![]), Item::Map(vec![]), Item::Bytes(big)])));
+    }
     out
 }
 
@@ -199,7 +207,21 @@ impl Check for C14 {
             }
             1 => {
                 let ty = TAGGED_TYPES[(idx % 6) as usize];
-                let v = gen::gen_mval(&mut ctx.rng, ty, &GenOpts::wire());
+                let mut v = gen::gen_mval(&mut ctx.rng, ty, &GenOpts::wire());
+                if ctx.rng.chance(1, 3) {
+                    // a payload / ciphertext that is itself a well-formed CBOR item of a familiar shape
+                    // (a CWT claims set, a key, another message): still just bytes
+                    let sb = Some(gen::structured_bytes(&mut ctx.rng));
+                    match &mut v {
+                        model::MVal::Sign1(m) => m.payload = sb,
+                        model::MVal::Sign(m) => m.payload = sb,
+                        model::MVal::Mac(m) => m.payload = sb,
+                        model::MVal::Mac0(m) => m.payload = sb,
+                        model::MVal::Encrypt(m) => m.ct = sb,
+                        model::MVal::Encrypt0(m) => m.ct = sb,
+                        _ => {}
+                    }
+                }
                 let body_item = model::encode(&v);
                 let body = rcbor::det(&body_item);
                 let t = ty.tag().unwrap();
